@@ -181,6 +181,7 @@ func checkF3(c *fw.Ctx) {
 		if err != nil {
 			c.Undecided(rule, "checkRoomID", err.Error())
 		} else {
+			t.ExpandUnknown(createOrParseAtom)
 			for _, r := range t.Rows {
 				if r.Outcome != "accept" {
 					continue
@@ -199,22 +200,13 @@ func checkF3(c *fw.Ctx) {
 		if fn == nil {
 			continue
 		}
-		pc, ok := fw.PathConds(fn)
-		if !ok {
-			continue
-		}
-		// blocks that read eventFields.RoomID[1:] or parse eventFields.RoomID are reached only for non-create events: their condition must not hold for create events
-		okPred := false
-		for _, iff := range fw.Ifs(fn) {
-			s := fw.Sig(iff.Cond)
-			if strings.Contains(s, ".StateKeyEquals(") || strings.HasPrefix(s, "phi(false|") {
+		// the branch conditions of the accessor (helpers such as isCreateEvent() expanded)
+		okPred, tyOK := false, false
+		for atom := range branchAtomsExpanded(fn, createOrParseAtom) {
+			if strings.Contains(atom, ".StateKeyEquals(") && strings.HasSuffix(atom, `,"")`) {
 				okPred = true
 			}
-		}
-		_ = pc
-		tyOK := false
-		for _, iff := range fw.Ifs(fn) {
-			if strings.Contains(fw.Sig(iff.Cond), `== "m.room.create")`) {
+			if strings.Contains(atom, ".Type(") && strings.HasSuffix(atom, `== "m.room.create")`) {
 				tyOK = true
 			}
 		}
@@ -472,12 +464,33 @@ func checkF6(c *fw.Ctx) {
 
 // validatorImpliesNewRoomID: every success return of the validator lies behind spec.NewRoomID(id) == nil,
 // or (v12 form) behind the create-event predicate, for which RoomID() does not parse the field.
+// createOrParseAtom: the atoms the room-id rules reason about; every other atom that is a
+// call to a repository helper is expanded into the helper's own conditions.
+func createOrParseAtom(atom string) bool {
+	return strings.Contains(atom, "gmsl/spec.NewRoomID(") || strings.HasSuffix(atom, `== "m.room.create")`) || strings.Contains(atom, ".StateKeyEquals(")
+}
+
+// branchAtomsExpanded: every atom the function branches on, with helper predicates expanded.
+func branchAtomsExpanded(fn *ssa.Function, known func(string) bool) map[string]bool {
+	out := map[string]bool{}
+	conds, _ := fw.PathConds(fn)
+	for _, d := range conds {
+		for _, term := range fw.ExpandDNF(d, known) {
+			for _, l := range term {
+				out[l.Atom] = true
+			}
+		}
+	}
+	return out
+}
+
 func validatorImpliesNewRoomID(c *fw.Ctx, v *ssa.Function) bool {
 	t, err := fw.ExtractTable(v, fw.ErrIndex(v))
 	if err != nil {
 		return false
 	}
 	c.SawFn(fw.FuncName(v))
+	t.ExpandUnknown(createOrParseAtom)
 	found := false
 	for _, r := range t.Rows {
 		if r.Outcome != "accept" {
